@@ -76,6 +76,21 @@ CHECKS["C10"] = dict(
   text="Narrow by design: the transaction matcher leaves its output loop only by exhaustion and gives every verdict after it; the (script, txid, index) passed to the update helper belong to the same output; the helper inserts unconditionally for BloomUpdateAll, exactly for {PubKeyTy, MultiSigTy} for P2PubkeyOnly and never otherwise; the block scanner visits every transaction, registers inputs in the spender index in the checking iteration, and the checker records matches and re-checks registered dependants on the matched edge. The match relation over all scripts, spend graphs and permutations is not decided.",
   note="Trusted: txscript.GetScriptClass/PushedData; BIP37 flag semantics; wire field names.",
   ref="§3 C10")
+CHECKS["C11"] = dict(
+  technique="canonical-term comparison of sibling implementations up to field renaming (tree width, traversal children / guards / base cases, subtree hash, flag packing), CFG ordering of flag / hash / children events, provenance comparison of message fields",
+  text="The three tree-width functions are one canonical term and equal BIP37's formula; the two builders' and the extractor's traversals recurse on (h-1, 2p) then (h-1, 2p+1), guard the right child with 2p+1 < width(h-1), stop on h = 0 or a clear flag and handle flag, hash, children in that order; the builders agree on the subtree hash (right-edge duplication) and on the leaf range that sets a parent flag; flag bits are packed and unpacked at (i/8, i%8) with ceil(bits/8) bytes; the two filter-driven builders use the same match-set function and fill matched bits, index list, hashes and message fields from the same sources. That the emitted proof is the canonical BIP37 tree for every subset, and merkle-root equality, are not decided.",
+  note="Trusted: blockchain.HashMerkleBranches; wire.MsgMerkleBlock.AddTxHash.",
+  ref="§3 C11, §2.4")
+CHECKS["C14"] = dict(
+  technique="inter-procedural constant reaching through the With... chain, symbolic byte windows, ordered writer-call sequences, must-pass-through facts for content inclusion, structural latch check of every builder method",
+  text="DefaultP=19 and DefaultM=784931 and both block-filter entry points reach the P and M setters with exactly these constants; the key is hash[0:16]; NBytes/NPBytes/PBytes write VarInt(N) [, P], data in the stated order and FromNBytes reads the VarInt before handing the rest on; spent outpoints are added only for transaction index != 0 and scripts only when non-empty, de-duplicated through a map keyed by the entry bytes; filter hash = SHA256d(NBytes()), header = SHA256d(filter hash at 0 || previous header at 32); every chain method tests the error latch first and returns the builder untouched, terminal methods report the latched error, P>32 and M>2^32-1 set the latch. The 64x64->128 multiply and the Golomb-Rice bit stream are not decided.",
+  note="Trusted: wire VarInt = CompactSize; chainhash.DoubleHashH; constants stated in the property.",
+  ref="§3 C14")
+CHECKS["C16"] = dict(
+  technique="who-may-write analysis of memo fields (discovered from accessor shape), origin analysis of stored values, dominance of cache-empty edges, index-consistency of the sparse cache, bounds prover with a checked class invariant",
+  text="Every memo field of Block / Tx is stored only on a fresh object by a constructor or by its own accessor on the cache-empty edge, with a value originating from the wrapped message or fresh memory only; accessors return the memo on the cached path and store it before returning on the computing path; each store into the per-index cache wraps msg.Transactions[k] with index k at slot k, the cache is always sized len(msg.Transactions) and the completion flag is set only after the filling loop; all index expressions of Tx(i) are proved in range from the guard. Byte equality with a fresh serialisation and TxLoc are not decided; bytes supplied to the ...FromBytes constructors are trusted.",
+  note="Trusted: wire serialisation/hash functions; callers do not mutate the wire message after wrapping it.",
+  ref="§3 C16")
 
 NA_REASON = {
  "C17": "Every clause with content is a statement about IEEE-754 rounding of f*1e8, a/10^k and shortest-decimal printing over 2.1e15 integers; no fact about the shape of amount.go implies or refutes it, and the two shape-level clauses (NaN/Inf rejected, unit labels) are already pinned by the suite (DESIGN.md §4).",
